@@ -64,7 +64,7 @@ EXPR_POOL += ['( "[note]" = "closed :-)" )', "( '[code]' ~ '^A(1' )", "(([a] + 1
 EXPR_POOL = [e for e in EXPR_POOL if "NOT" not in e]
 # (expressions in the stored normal form; NOT is written the way the normal form writes it)
 EXPR_POOL += ["( ( [a] = 1 ) AND NOT ( [b] = 2 ) )", "( ( [a] = 1 ) OR NOT ( [b] = 'y' ) )"]
-CHAR_POOL = ["x", "D", "\u00e9", "7", "\u00df", "\ufb01", "|"]
+CHAR_POOL = ["x", "D", "\u00e9", "7", "\u00df", "\ufb01", "|", " "]      # (LABEL WRAP ' ' is the form the MapServer documentation uses)
 # case-insensitive string comparisons: stored and printed verbatim, quotes and trailing i included
 ISTRING_POOL = ['"north"i', "'aitkin'i", '"Main St"i', "'x'i"]
 # list expressions: elements are kept verbatim (zero-padded codes, trailing zeros, signs, booleans, phrases)
